@@ -5,6 +5,7 @@ import (
 	"bytes"
 	"fmt"
 	"math/big"
+	"os"
 	"sort"
 	"strings"
 
@@ -42,8 +43,11 @@ func Register(id string, run func(r *mon.Run)) {
 			}
 			runHammer(r, id, rounds, b)
 		}
-		if id == "C08" || id == "C09" || id == "C14" || id == "C20" {
+		if id == "C08" || id == "C09" || id == "C14" {
 			runFaultThenUse(r, id, r.N(30, 1000)) // faults.go
+		}
+		if id == "C20" && (os.Getenv("VERIF_BATCH") == "" || os.Getenv("VERIF_BATCH") == "0") {
+			runFaultThenUse(r, id, r.N(10, 300)) // once per run, not once per batch process (race build)
 		}
 		if ops := coldConcOps[id]; ops != nil {
 			runConcurrentColdStart(r, id, r.N(30, 300), ops)
